@@ -135,6 +135,10 @@ fn main() {
             let n = rec_lib::record_obj(args.val("--trace").expect("--trace"), args.num("--count", 300) as usize, seed, args.val("--force").unwrap_or("avx2"));
             rep.count("records", n);
         }
+        "record-pair" => {
+            let n = rec_lib::record_pair(args.val("--trace").expect("--trace"), args.num("--count", 200) as usize, seed);
+            rep.count("records", n);
+        }
         "conc-child" => {
             rec_lib::conc_child(args.val("--trace").expect("--trace"), args.num("--threads", 4) as usize, seed, args.num("--rounds", 20) as usize);
             return;
